@@ -52,7 +52,7 @@ impl PCase {
         let mut c = PCase::default();
         for line in text.lines() {
             let line = line.trim();
-            if line.is_empty() || line.starts_with("case") || line.starts_with('#') || line.starts_with("cfg") || line.starts_with("crash") { continue; }
+            if line.is_empty() || line.starts_with("case") || line.starts_with('#') || line.starts_with("cfg") || line.starts_with("crash") || line == "shutdown" { continue; }
             if line.starts_with("node") { c.program.parse_node_line(line); }
             else if line == "restart" { c.items.push(Item::Restart); }
             else { c.items.push(Item::Op(Op::parse(line))); }
@@ -84,7 +84,7 @@ fn shutdown(engine: Arc<Eng>) {
 }
 
 #[derive(Default)]
-struct RunOut { outs: Vec<OpOut>, crash: Option<String>, commits_at_restart: Vec<usize> }
+struct RunOut { outs: Vec<OpOut>, crash: Option<String>, /** logical write batches in the store after each shutdown (restarts, then the final one) */ batches_at_shutdown: Vec<u64> }
 
 /// Runs the items on `store`; the engine is shut down at the end (also after a panic inside: by unwinding).
 fn run_items(case: &PCase, cfg: ECfg, store: &Arc<MemStore>) -> RunOut {
@@ -102,7 +102,7 @@ fn run_items(case: &PCase, cfg: ECfg, store: &Arc<MemStore>) -> RunOut {
                         Item::Restart => {
                             world = sh.world.lock().unwrap().clone();
                             shutdown(engine);
-                            p2.lock().unwrap().commits_at_restart.push(store2.log_len());
+                            p2.lock().unwrap().batches_at_shutdown.push(store2.log().iter().map(|c| c.logical).sum());
                             let (e, s) = open_engine(&store2, cfg, &case2.program, &world).await;
                             engine = e; sh = s;
                         }
@@ -115,6 +115,7 @@ fn run_items(case: &PCase, cfg: ECfg, store: &Arc<MemStore>) -> RunOut {
                     }
                 }
                 shutdown(engine);
+                p2.lock().unwrap().batches_at_shutdown.push(store2.log().iter().map(|c| c.logical).sum());
                 Ok(())
             })
         }));
@@ -300,6 +301,230 @@ fn probe(program: &Program, cfg: ECfg, store: &Arc<MemStore>, world: &BTreeMap<u
     }
 }
 
+
+// ------------------------------------------------------------------------------------------
+// the same two oracles on the real RocksDB backend (thorough tier; supporting validation only)
+// ------------------------------------------------------------------------------------------
+#[cfg(feature = "backends")]
+mod rocks {
+    use super::*;
+    use qbice::storage::kv_database::rocksdb::RocksDB;
+    use std::path::{Path, PathBuf};
+
+    #[derive(Debug, Clone, Copy, PartialEq, Eq, PartialOrd, Ord, Hash, Default, Identifiable)]
+    pub struct RCfg;
+    impl Config for RCfg {
+        type StorageEngine = DbBacked<RocksDB>;
+        type BuildStableHasher = SeededStableHasherBuilder<Sip128Hasher>;
+        type BuildHasher = fxhash::FxBuildHasher;
+    }
+    type REng = Engine<RCfg>;
+
+    async fn open(dir: &Path, cap: u64, program: &Program, world: &BTreeMap<u32, i64>) -> (Arc<REng>, Arc<Shared>) {
+        let sh = Arc::new(Shared::default());
+        *sh.program.write().unwrap() = program.clone();
+        *sh.world.lock().unwrap() = world.clone();
+        let factory = DbBackedFactory::builder().configuration(Configuration::builder().cache_capacity(cap).serialization_workers(2).build()).db_factory(RocksDB::factory(dir.to_path_buf())).build();
+        let mut engine = Engine::<RCfg>::new_with(Plugin::default(), factory, SeededStableHasherBuilder::new(0)).await.expect("open rocksdb");
+        register_all(&mut engine, &sh);
+        (Arc::new(engine), sh)
+    }
+    fn shutdown(engine: Arc<REng>) { drop(Arc::try_unwrap(engine).unwrap_or_else(|_| panic!("harness: engine still shared at shutdown"))); }
+
+    /// runs the items; `progress` (if any) gets one byte per completed item (for the kill -9 parent)
+    pub fn run_items(case: &PCase, cap: u64, dir: &Path, progress: Option<PathBuf>) -> RunOut {
+        let partial: Arc<std::sync::Mutex<RunOut>> = Default::default();
+        let (p2, case2, dir2) = (partial.clone(), case.clone(), dir.to_path_buf());
+        let (tx, rx) = std::sync::mpsc::channel();
+        let _ = std::thread::Builder::new().stack_size(256 << 20).spawn(move || {
+            let rt = tokio::runtime::Builder::new_current_thread().enable_all().build().unwrap();
+            let r = std::panic::catch_unwind(std::panic::AssertUnwindSafe(|| {
+                rt.block_on(async {
+                    let mut world: BTreeMap<u32, i64> = BTreeMap::new();
+                    let (mut engine, mut sh) = open(&dir2, cap, &case2.program, &world).await;
+                    for it in &case2.items {
+                        match it {
+                            Item::Restart => { world = sh.world.lock().unwrap().clone(); shutdown(engine); let (e, s) = open(&dir2, cap, &case2.program, &world).await; engine = e; sh = s; }
+                            Item::Op(op) => match tokio::time::timeout(std::time::Duration::from_secs(10), run_op(&engine, &sh, op)).await {
+                                Ok(o) => p2.lock().unwrap().outs.push(o),
+                                Err(_) => return Err(format!("hang at op {}", op.render())),
+                            },
+                        }
+                        if let Some(pp) = &progress { use std::io::Write; let mut f = std::fs::OpenOptions::new().create(true).append(true).open(pp).unwrap(); f.write_all(b".").unwrap(); f.sync_all().unwrap(); }
+                    }
+                    shutdown(engine);
+                    Ok(())
+                })
+            }));
+            drop(rt);
+            let _ = tx.send(match r { Ok(x) => x, Err(p) => Err(format!("panic: {}", panic_msg(&p))) });
+        });
+        let r = match rx.recv_timeout(std::time::Duration::from_secs(60)) { Ok(r) => r, Err(_) => Err("hang (watchdog)".to_string()) };
+        let mut out = std::mem::take(&mut *partial.lock().unwrap());
+        out.crash = r.err();
+        out
+    }
+
+    /// open an engine on `dir`; read the inputs back (None = the store has no inputs at all), then query `ks`
+    pub fn probe(program: &Program, dir: &Path, inputs: &[u32], ks_of: impl Fn(&BTreeMap<u32, i64>) -> Vec<u32> + Send + 'static) -> Result<(Option<BTreeMap<u32, i64>>, Vec<u32>, Vec<String>), String> {
+        let (program2, dir2, inputs2) = (program.clone(), dir.to_path_buf(), inputs.to_vec());
+        let (tx, rx) = std::sync::mpsc::channel();
+        let _ = std::thread::Builder::new().stack_size(256 << 20).spawn(move || {
+            let rt = tokio::runtime::Builder::new_current_thread().enable_all().build().unwrap();
+            let r = std::panic::catch_unwind(std::panic::AssertUnwindSafe(|| {
+                rt.block_on(async {
+                    let world = BTreeMap::new();
+                    // which inputs does the store have?  an input that was never set has no executor: the query panics,
+                    // so presence is probed on a throw-away engine per input
+                    let mut have: BTreeMap<u32, i64> = BTreeMap::new();
+                    for k in &inputs2 {
+                        let (engine, sh) = open(&dir2, 64, &program2, &world).await;
+                        let e2 = engine.clone(); let sh2 = sh.clone(); let k2 = *k;
+                        let h = tokio::spawn(async move { let te = e2.tracked().await; let v = query_key(&sh2, &te, k2).await; drop(te); v });
+                        let r = h.await;
+                        if let Ok(v) = r { have.insert(*k, v); }
+                        shutdown(engine);
+                    }
+                    if have.is_empty() { return (None, vec![], vec![]); }
+                    let ks = ks_of(&have);
+                    let (engine, sh) = open(&dir2, 8, &program2, &world).await;
+                    let o = run_op(&engine, &sh, &Op::Round(ks.clone())).await;
+                    shutdown(engine);
+                    (Some(have), ks, o.vals)
+                })
+            }));
+            drop(rt);
+            let _ = tx.send(match r { Ok(x) => Ok(x), Err(p) => Err(format!("panic: {}", panic_msg(&p))) });
+        });
+        match rx.recv_timeout(std::time::Duration::from_secs(60)) { Ok(r) => r, Err(_) => Err("hang (watchdog)".into()) }
+    }
+
+    pub fn tmp(tag: &str) -> PathBuf { let d = std::env::temp_dir().join(format!("c0708-rocks-{}-{tag}", std::process::id())); let _ = std::fs::remove_dir_all(&d); d }
+
+    /// judge a reopened store: the inputs must be those after SOME session of the history, every value from-scratch for them
+    pub fn judge_reopened(case: &PCase, dir: &Path, what: &str, failures: &mut Vec<Failure>, dist: &mut BTreeMap<String, u64>, rng: &mut Rng) {
+        let ops = case.ops();
+        let exp = expectations(&case.program, &ops, &[]);
+        let n = case.program.nodes.len() as u32;
+        let inputs: Vec<u32> = (0..n).filter(|k| case.program.kind(*k) == Kind::Input).collect();
+        let order = rng.below(3); let seed = rng.next();
+        let program = case.program.clone();
+        let ks_of = move |have: &BTreeMap<u32, i64>| { let t = Truth { inputs: have.clone(), ext: BTreeMap::new() }; let mut ks: Vec<u32> = (0..n).filter(|k| defined(&program, &t, *k)).collect(); match order { 0 => {}, 1 => ks.reverse(), _ => Rng::new(seed).shuffle(&mut ks) } ks };
+        match probe(&case.program, dir, &inputs, ks_of) {
+            Err(m) => failures.push(Failure { sig: format!("C08:rocksdb:{what}:reopen-failed"), desc: m.chars().take(300).collect(), case: case.render() }),
+            Ok((None, _, _)) => { *dist.entry(format!("{what}_store_without_inputs")).or_insert(0) += 1; }
+            Ok((Some(have), ks, vals)) => {
+                let sess: Vec<usize> = ops.iter().enumerate().filter(|(_, o)| matches!(o, Op::Session(_))).map(|(i, _)| i).collect();
+                let t = sess.iter().rposition(|i| exp.truths[*i].0.inputs == have);
+                *dist.entry(format!("{what}_stores_checked")).or_insert(0) += 1;
+                match t {
+                    None => failures.push(Failure { sig: format!("C08:rocksdb:{what}:inputs-of-no-session"), desc: format!("inputs read back {:?} are not those after any session", have), case: case.render() }),
+                    Some(ti) => {
+                        *dist.entry(format!("{what}_recovered_session_{}", if ti + 1 == sess.len() { "last".to_string() } else { "earlier".to_string() })).or_insert(0) += 1;
+                        let truth = Truth { inputs: have.clone(), ext: BTreeMap::new() };
+                        let mut sc = Scratch::new(&case.program, &truth);
+                        let expv: Vec<String> = ks.iter().map(|k| sc.value(*k).unwrap().to_string()).collect();
+                        if vals != expv {
+                            // F1/F14 also without a crash? same attribution as the KvMem run: a never-crashed in-memory engine driven to a point of that epoch
+                            let lo = sess[ti]; let hi = sess.get(ti + 1).copied().unwrap_or(ops.len());
+                            let mut same = false;
+                            for j in lo..hi {
+                                let mut items: Vec<Item> = ops[..=j].iter().cloned().map(Item::Op).collect(); items.push(Item::Op(Op::Round(ks.clone())));
+                                let rr = super::run_items(&PCase { program: case.program.clone(), items }, ECfg { cap: 64, group: 1, workers: 1 }, &MemStore::new(1, false));
+                                if rr.crash.is_none() && rr.outs.last().map(|o| &o.vals) == Some(&vals) { same = true; break; }
+                            }
+                            if same { *dist.entry(format!("{what}_value_failures_shared_with_a_never_crashed_engine")).or_insert(0) += 1; }
+                            else { failures.push(Failure { sig: format!("C08:rocksdb:{what}:value"), desc: format!("keys {:?}: got {:?} expected {:?} (inputs {:?})", ks, vals, expv, have), case: case.render() }); }
+                        }
+                    }
+                }
+            }
+        }
+    }
+}
+
+
+// ------------------------------------------------------------------------------------------
+// F8: a session opened while a reader is still publishing (concurrent scenario, no hooks)
+// ------------------------------------------------------------------------------------------
+mod f8 {
+    use super::*;
+    use qbice::{Decode, Encode, Query, StableHash, TrackedEngine, executor::Executor};
+
+    #[derive(Debug, Clone, Copy, PartialEq, Eq, PartialOrd, Ord, Hash, StableHash, Encode, Decode, Identifiable)]
+    pub struct Var(pub u32);
+    impl Query for Var { type Value = i64; }
+    #[derive(Debug, Clone, Copy, PartialEq, Eq, PartialOrd, Ord, Hash, StableHash, Encode, Decode, Identifiable)]
+    pub struct Gated(pub u32);
+    impl Query for Gated { type Value = i64; }
+
+    /// reads `Var(0)`, then waits at the gate (if armed), returns 10 * value
+    pub struct GatedEx { pub armed: Arc<std::sync::atomic::AtomicBool>, pub reached: Arc<tokio::sync::Notify>, pub gate: Arc<tokio::sync::Notify>, pub runs: Arc<std::sync::atomic::AtomicU64> }
+    impl<C: Config> Executor<Gated, C> for GatedEx {
+        async fn execute(&self, _q: &Gated, te: &TrackedEngine<C>) -> i64 {
+            let v = te.query(&Var(0)).await;
+            self.runs.fetch_add(1, std::sync::atomic::Ordering::SeqCst);
+            if self.armed.swap(false, std::sync::atomic::Ordering::SeqCst) { self.reached.notify_one(); self.gate.notified().await; }
+            10 * v
+        }
+    }
+
+    async fn open(store: &Arc<MemStore>) -> (Arc<Eng>, Arc<GatedEx>) {
+        let factory = DbBackedFactory::builder().configuration(Configuration::builder().cache_capacity(64).serialization_workers(1).build()).db_factory(KvMemFactory(store.clone())).build();
+        let mut engine = Engine::<PCfg>::new_with(Plugin::default(), factory, SeededStableHasherBuilder::new(0)).await.unwrap();
+        let ex = Arc::new(GatedEx { armed: Default::default(), reached: Default::default(), gate: Default::default(), runs: Default::default() });
+        engine.register_executor::<Gated, _>(ex.clone());
+        (Arc::new(engine), ex)
+    }
+
+    /// returns (value of Gated(0) on the never-restarted engine, value after a restart, from-scratch value)
+    pub fn scenario(overlap: bool) -> Result<(i64, i64, i64), String> {
+        let live = scenario1(overlap, false)?;
+        let after = scenario1(overlap, true)?;
+        Ok((live, after, 30))
+    }
+
+    /// the value of Gated(0) at the end: on the same engine (`restart` = false) or on an engine reopened on the drained store
+    fn scenario1(overlap: bool, restart: bool) -> Result<i64, String> {
+        let rt = tokio::runtime::Builder::new_current_thread().enable_all().build().unwrap();
+        let r = std::panic::catch_unwind(std::panic::AssertUnwindSafe(|| rt.block_on(async {
+            let store = MemStore::new(1, std::env::var("VERIF_TRACE").is_ok());
+            let (engine, ex) = open(&store).await;
+            { let mut s = engine.input_session().await; s.set_input(Var(0), 1).await; s.commit().await; }
+            { let te = engine.clone().tracked().await; assert_eq!(te.query(&Gated(0)).await, 10); }
+            { let mut s = engine.input_session().await; s.set_input(Var(0), 2).await; s.commit().await; }
+            // a reader re-executes Gated(0) (its edge to Var(0) is dirty) and is held inside its executor
+            let reader = if overlap {
+                ex.armed.store(true, std::sync::atomic::Ordering::SeqCst);
+                let e2 = engine.clone();
+                let h = tokio::spawn(async move { let te = e2.tracked().await; let v = te.query(&Gated(0)).await; drop(te); v });
+                ex.reached.notified().await;
+                Some(h)
+            } else { let te = engine.clone().tracked().await; assert_eq!(te.query(&Gated(0)).await, 20); None };
+            // the next session is opened now: its write batch is created (and the timestamp bumped) before it waits
+            // for the reader to leave
+            let e3 = engine.clone();
+            let writer = tokio::spawn(async move { let mut s = e3.input_session().await; s.set_input(Var(0), 3).await; s.commit().await; });
+            for _ in 0..20 { tokio::task::yield_now().await; }
+            if let Some(h) = reader { ex.gate.notify_one(); let v = h.await.unwrap(); assert_eq!(v, 20); }
+            writer.await.unwrap();
+            if !restart {
+                let live = { let te = engine.clone().tracked().await; let v = te.query(&Gated(0)).await; drop(te); v };
+                shutdown(engine);
+                return live;
+            }
+            shutdown(engine);
+            if std::env::var("VERIF_TRACE").is_ok() { for (i, c) in store.log().iter().enumerate() { eprintln!("commit {i} (logical {})", c.logical); for op in &c.ops { match op { MemOp::Put { desc, .. } => eprintln!("   put {:?}", desc.as_ref().map(|d| format!("{} {} = {}", d.value_type, d.key, d.value))), MemOp::Del { desc, .. } => eprintln!("   del {:?}", desc.as_ref().map(|d| format!("{} {}", d.value_type, d.key))), MemOp::InsM { desc, .. } => eprintln!("   ins {:?}", desc.as_ref().map(|d| format!("{} {} ∋ {}", d.column, d.key, d.value))), MemOp::DelM { desc, .. } => eprintln!("   delm {:?}", desc.as_ref().map(|d| format!("{} {} ∌ {}", d.column, d.key, d.value))) } } } }
+            let (engine2, _ex2) = open(&store).await;
+            let after = { let te = engine2.clone().tracked().await; let v = te.query(&Gated(0)).await; drop(te); v };
+            shutdown(engine2);
+            after
+        })));
+        drop(rt);
+        r.map_err(|p| format!("panic: {}", panic_msg(&p)))
+    }
+}
+
 fn main() {
     std::panic::set_hook(Box::new(|_| {}));
     let a = args();
@@ -362,10 +587,10 @@ fn main() {
             out.line(lines.next().unwrap(), "case"); exp_lines.push("case".into());
             out.line(&format!("cfg cap={} group={} workers={}", cfg.cap, cfg.group, cfg.workers), "cfg"); exp_lines.push("cfg".into());
             for _ in 0..case.program.nodes.len() { out.line(lines.next().unwrap(), "ok"); exp_lines.push("ok".into()); }
-            let mut oi = 0;
+            let mut oi = 0; let mut ri = 0;
             for it in &case.items {
                 match it {
-                    Item::Restart => { if oi <= rb.outs.len() && !(oi == rb.outs.len() && rb.crash.is_some()) { out.line("restart", "restarted"); exp_lines.push("restarted".into()); } }
+                    Item::Restart => { if oi <= rb.outs.len() && !(oi == rb.outs.len() && rb.crash.is_some()) { let l = format!("restarted {}", rb.batches_at_shutdown.get(ri).map(|n| n.to_string()).unwrap_or("?".into())); ri += 1; out.line("restart", &l); exp_lines.push(l); } }
                     Item::Op(op) => {
                         if oi < rb.outs.len() { out.line(&op.render(), &render_out(&rb.outs[oi], with_execs)); exp_lines.push(exp.lines[oi].clone()); bump(&mut dist, "ops", 1); bump(&mut dist, "executor_invocations", rb.outs[oi].execs.len() as u64); }
                         else if oi == rb.outs.len() && rb.crash.is_some() { let m = rb.crash.as_ref().unwrap(); out.line(&op.render(), &format!("crash {}", if m.starts_with("hang") { "hang" } else { "panic" })); exp_lines.push(exp.lines[oi].clone()); }
@@ -373,6 +598,7 @@ fn main() {
                     }
                 }
             }
+            if rb.crash.is_none() { let l = format!("shutdown {}", rb.batches_at_shutdown.get(ri).map(|n| n.to_string()).unwrap_or("?".into())); out.line("shutdown", &l); exp_lines.push(l); }
             if let Some((sig, desc)) = compare_runs(case, &ra, &rb) {
                 let cfgline = format!("cfg cap={} group={} workers={}\n", cfg.cap, cfg.group, cfg.workers);
                 if failures.iter().filter(|f| f.sig == sig).count() < 2 {
@@ -424,14 +650,15 @@ fn main() {
                 // a history that does not complete is C01/C05's business; the crash points of what was committed are still checked
                 bump(&mut dist, "histories_that_stopped_early", 1);
             }
-            let mut oi = 0;
+            let mut oi = 0; let mut ri = 0;
             for it in &case.items {
                 match it {
-                    Item::Restart => { if oi < r.outs.len() || r.crash.is_none() { out.line("restart", "restarted"); exp_lines.push("restarted".into()); } }
+                    Item::Restart => { if oi < r.outs.len() || r.crash.is_none() { let l = format!("restarted {}", r.batches_at_shutdown.get(ri).map(|n| n.to_string()).unwrap_or("?".into())); ri += 1; out.line("restart", &l); exp_lines.push(l); } }
                     Item::Op(op) => { if oi < r.outs.len() { out.line(&op.render(), &render_out(&r.outs[oi], with_execs)); exp_lines.push(exp.lines[oi].clone()); } oi += 1; }
                 }
             }
             if r.crash.is_some() { continue; }
+            { let l = format!("shutdown {}", r.batches_at_shutdown.get(ri).map(|n| n.to_string()).unwrap_or("?".into())); out.line("shutdown", &l); exp_lines.push(l); }
             let log = store.log();
             bump(&mut dist, "physical_commits", log.len() as u64);
             bump(&mut dist, "logical_batches", log.iter().map(|c| c.logical).sum());
@@ -496,11 +723,94 @@ fn main() {
                 }
             }
         }
+    } else if mode == "f8" {
+        // sequential control first (no overlap), then the overlapping session
+        for overlap in [false, true] {
+            evals += 1;
+            let (tx, rx) = std::sync::mpsc::channel();
+            std::thread::spawn(move || { let _ = tx.send(f8::scenario(overlap)); });
+            match rx.recv_timeout(std::time::Duration::from_secs(30)) {
+                Ok(Ok((live, after, want))) => {
+                    bump(&mut dist, &format!("f8_overlap_{overlap}_live_{live}_after_restart_{after}_expected_{want}"), 1);
+                    if after != want || live != want {
+                        failures.push(Failure { sig: if overlap && live == want { "C07:F8:session-opened-while-reader-publishes".into() } else { "C07:F8-scenario:unexpected".into() },
+                            desc: format!("Var(0)=1; query G; Var(0)=2; reader re-executes G=10*Var(0) and is held inside its executor while the next session (Var(0)=3) is opened; after both finish the never-restarted engine answers G={live}, the engine reopened on the drained store answers G={after}, from-scratch {want} (overlap={overlap})"),
+                            case: "persist --mode f8".into() });
+                    }
+                }
+                Ok(Err(m)) => failures.push(Failure { sig: "C07:F8-scenario:panic".into(), desc: m.chars().take(300).collect(), case: "persist --mode f8".into() }),
+                Err(_) => failures.push(Failure { sig: "C07:F8-scenario:hang".into(), desc: format!("overlap={overlap}"), case: "persist --mode f8".into() }),
+            }
+        }
+    } else if mode == "rocks-child" {
+        #[cfg(feature = "backends")]
+        {
+            // child of the kill -9 run: run the history on RocksDB in `--dir`, reporting progress; never returns normally if killed
+            let dir = a.rest.iter().position(|x| x == "--dir").map(|i| a.rest[i + 1].clone()).expect("--dir");
+            let case = PCase::parse(&std::fs::read_to_string(a.replay.as_ref().expect("--replay")).unwrap());
+            let r = rocks::run_items(&case, 8, std::path::Path::new(&dir), Some(std::path::PathBuf::from(format!("{dir}.progress"))));
+            std::process::exit(if r.crash.is_some() { 3 } else { 0 });
+        }
+    } else if mode == "rocks-c07" || mode == "rocks-c08" {
+        #[cfg(not(feature = "backends"))]
+        { eprintln!("built without the `backends` feature"); std::process::exit(2); }
+        #[cfg(feature = "backends")]
+        {
+            let n_cases = a.n.unwrap_or(30);
+            for i in 0..n_cases {
+                let c = gen_case(&mut rng, i, i % 2 == 0, mode == "rocks-c07");
+                let pc = insert_restarts(&mut rng, &c);
+                evals += 1;
+                let text = pc.render();
+                if nontrivial(&pc.ops()) { distinct.insert(hash(&text)); if samples.len() < 2 { samples.push(text.clone()); } }
+                if mode == "rocks-c07" {
+                    let (da, db) = (rocks::tmp("a"), rocks::tmp("b"));
+                    let cap = *rng.pick(&CAPS);
+                    let ra = rocks::run_items(&pc.without_restarts(), cap, &da, None);
+                    let rb = rocks::run_items(&pc, cap, &db, None);
+                    bump(&mut dist, "rocksdb_restarts", pc.items.iter().filter(|i| **i == Item::Restart).count() as u64);
+                    bump(&mut dist, "rocksdb_ops", pc.ops().len() as u64);
+                    if let Some((sig, desc)) = compare_runs(&pc, &ra, &rb) { failures.push(Failure { sig: sig.replace("C07:", "C07:rocksdb:"), desc, case: text.clone() }); }
+                    let _ = std::fs::remove_dir_all(&da); let _ = std::fs::remove_dir_all(&db);
+                } else {
+                    // (1) clean end of the history, reopened; (2) kill -9 of a child at a seeded instant, reopened
+                    let d1 = rocks::tmp("clean");
+                    let r1 = rocks::run_items(&pc, 8, &d1, None);
+                    if r1.crash.is_none() { rocks::judge_reopened(&pc, &d1, "clean_shutdown", &mut failures, &mut dist, &mut rng); }
+                    let _ = std::fs::remove_dir_all(&d1);
+                    let d2 = rocks::tmp("kill");
+                    let casefile = format!("{}/kill-case-{i}.txt", a.out);
+                    std::fs::write(&casefile, &text).unwrap();
+                    let progress = std::path::PathBuf::from(format!("{}.progress", d2.display()));
+                    let _ = std::fs::remove_file(&progress);
+                    let mut child = std::process::Command::new(std::env::current_exe().unwrap()).args(["--mode", "rocks-child", "--replay", &casefile, "--dir", &d2.display().to_string(), "--out", &format!("{}/child", a.out)])
+                        .stdout(std::process::Stdio::null()).stderr(std::process::Stdio::null()).spawn().expect("spawn child");
+                    // kill when a seeded number of items has completed (or after a seeded delay, whichever comes first)
+                    let want = rng.below(pc.items.len() as u64 + 1) as usize;
+                    let extra_us = rng.below(3000);
+                    let t0 = std::time::Instant::now();
+                    loop {
+                        let done = std::fs::metadata(&progress).map(|m| m.len() as usize).unwrap_or(0);
+                        if done >= want || t0.elapsed() > std::time::Duration::from_secs(20) { break; }
+                        if let Ok(Some(_)) = child.try_wait() { break; }
+                        std::thread::sleep(std::time::Duration::from_micros(200));
+                    }
+                    std::thread::sleep(std::time::Duration::from_micros(extra_us));
+                    let finished = matches!(child.try_wait(), Ok(Some(_)));
+                    unsafe { kill(child.id() as i32, 9); }
+                    let _ = child.wait();
+                    bump(&mut dist, if finished { "kill9_child_had_finished" } else { "kill9_child_killed_mid_run" }, 1);
+                    let _ = std::fs::remove_file(d2.join("LOCK"));
+                    rocks::judge_reopened(&pc, &d2, "kill9", &mut failures, &mut dist, &mut rng);
+                    let _ = std::fs::remove_dir_all(&d2); let _ = std::fs::remove_file(&progress);
+                }
+            }
+        }
     } else { eprintln!("unknown mode {mode}"); std::process::exit(2); }
 
     let mut rep = String::from("{");
     rep.push_str(&format!("\"evaluations\":{evals},\"distinct_nontrivial\":{},", distinct.len()));
-    rep.push_str(&format!("\"rule\":{},", jstr(if mode == "c07" {
+    rep.push_str(&format!("\"rule\":{},", jstr(if mode.starts_with("rocks") { "the C07 / C08 oracles on the real RocksDB backend in temp dirs: histories with restarts vs without (rocks-c07); reopen after the clean end and after SIGKILL of a child process at a seeded instant (rocks-c08): inputs read back must be those after some session, every value from-scratch for them" } else if mode == "c07" {
         "random ranked programs (3..10 keys; input/normal/firewall/projection/external; conditional and unordered reads) x sequential histories of sessions and query rounds with restarts (engine dropped, new engine with fresh executors on the same store) at random positions (between any two ops, doubled, before the first op) x cache capacity {1,2,8,64} x write-behind grouping {1,2,3,5,all-at-shutdown} x serialization workers {1,2}; every case is run with and without its restarts; non-trivial = a session after the first round changes an input that had a value (or refreshes); distinct by hash of the case text"
     } else {
         "random ranked programs (3..10 keys; input/normal/firewall/projection; conditional and unordered reads) x sequential histories (a third with restarts) run to shutdown on DbBacked<KvMem> x cache capacity {1,2,8,64} x grouping {1,2,3,5,all-at-shutdown}; then one engine per prefix of the physical commit log (every boundary; >40 boundaries in the quick tier: 40 sampled) queried for every key in ascending / descending / random order; non-trivial as for C07"
@@ -512,6 +822,9 @@ fn main() {
     std::fs::write(format!("{}/expect.txt", a.out), exp_lines.join("\n") + "\n").unwrap();
     out.finish(&rep);
 }
+
+#[cfg(feature = "backends")]
+unsafe extern "C" { fn kill(pid: i32, sig: i32) -> i32; }
 
 fn parse_cfg(text: &str) -> Option<ECfg> {
     let l = text.lines().find(|l| l.trim().starts_with("cfg"))?;
